@@ -7,9 +7,12 @@ ops of the binary byte→token layer (C08, and the binary clauses of C09 / C19 /
 
   blex <hex>                         next_token until end/error: `<toks> <outcome> <pos>`
   bcut <hex> <k>                     blex of the first k bytes
+  blexbytes <hex> <n,n,..>           Lexer::read_bytes calls, then the next token
+  bparts <cap> <sched> <hex> <k>     k tokens, into_parts, re-wrap buffer + source in a new reader, stream the rest
   bfits <cap> <hex>                  the hypothesis `Fits cap data` of the streaming theorems (executable form)
   blexid <hex>                       the same through next_id + read_* primitives
   bpeek <hex>                        `<peek_id|none> <peek_token|none>`
+  bwritefail <toks> <k>              Token::write into a writer that fails after k bytes: `<bytes written> <ok|err:io>`
   bwrite <toks>                      Token::write of every token: hex
   bstream <cap> <sched> <hex>        TokenReader.next until end/error: `<toks> <outcome> <pos> <delivered>`
   bread <cap> <sched> <hex>          the same through `read()` (always ends in an error)
@@ -224,6 +227,29 @@ def bufOps : List String → Buf → Src → List String
         | some b' => s!"a:{toHex b'.window}@{b'.position}" :: bufOps ops b' s
     else ["bad-op"]
 
+/-- `Lexer::read_bytes` calls with the position after each one -/
+def lexBytesLog : List Nat → Lexer → List String × Lexer
+  | [], l => ([], l)
+  | n :: ns, l =>
+    match l.readBytes n with
+    | (.ok b, l') =>
+      let (rest, r) := lexBytesLog ns l'
+      (s!"{toHex b}@{l'.position}" :: rest, r)
+    | (.error e, l') =>
+      let (rest, r) := lexBytesLog ns l'
+      (s!"{showLexErr e.kind}@{l'.position}" :: rest, r)
+
+/-- `k` calls of `next` (stopping at the first end / error): tokens, how it stopped, reader -/
+def nextK : Nat → Reader → List Token × String × Reader
+  | 0, rd => ([], "ok", rd)
+  | k + 1, rd =>
+    match Reader.next rd.fuelFor rd with
+    | (.ok (some t), rd') =>
+      let (ts, o, r) := nextK k rd'
+      (t :: ts, o, r)
+    | (.ok none, rd') => ([], "end", rd')
+    | (.error e, rd') => ([], showKind e.kind, rd')
+
 def handle : Handler
   | ["blex", h] => (parseHex h).map fun d =>
       let (ts, term, p) := Lexer.run d
@@ -238,6 +264,22 @@ def handle : Handler
       let d ← parseHex h
       let cap ← cw.toNat?
       pure (if fitsBuffer cap d then "true" else "false")
+  | ["blexbytes", h, nsw] => do
+      let d ← parseHex h
+      let ns ← parseNats nsw
+      let (log, l) := lexBytesLog ns (Lexer.new d)
+      pure s!"{if log.isEmpty then "-" else ",".intercalate log} {showLexNext l}"
+  | ["bparts", capw, sw, h, kw] => do
+      let d ← parseHex h
+      let sched ← parseSched sw
+      if capw == "S" then none else
+      let rd ← mkReader capw sched d
+      let k ← kw.toNat?
+      let (before, o1, rd1) := nextK k rd
+      -- `into_parts`: the boxed buffer and the `Read`; the window offsets are dropped
+      let rd2 := Reader.build rd1.buf.mem rd1.src
+      let (after, e2, r2) := Reader.streamAll rd2
+      pure s!"{showToks before} {o1} {rd1.position} {rd1.src.delivered} {toHex rd1.buf.mem} {showToks after} {showStreamEnd e2} {r2.position} {r2.src.delivered}"
   | ["blexid", h] => (parseHex h).map fun d =>
       let (ts, term, p) := Lexer.runIds d
       s!"{showToks ts} {showTerminal term} {p}"
@@ -247,6 +289,12 @@ def handle : Handler
       let b := match l.peekToken with | some t => showTok t | none => "none"
       s!"{a} {b}"
   | ["bwrite", ts] => (parseToks ts).map fun toks => toHex (toks.flatMap Token.write)
+  | ["bwritefail", ts, kw] => do
+      let toks ← parseToks ts
+      let k ← kw.toNat?
+      -- a writer that takes k bytes and then fails: `write_all` delivers the prefix, `?` stops
+      let full := toks.flatMap Token.write
+      pure s!"{toHex (full.take k)} {if k < full.length then "err:io" else "ok"}"
   | ["bstream", capw, sw, h] => do
       let d ← parseHex h
       let sched ← parseSched sw
